@@ -189,10 +189,15 @@ def check_compat_table(model, col, R):
     if undecided:
         col.info(f"IsCompatible decision table: {len(undecided)} of {n} pairs not decided abstractly, e.g. {undecided[0][:120]}")
     col.floor(R, "abstract operand pairs of IsCompatible decided", n - len(undecided), 60)
+    return len(undecided)
 
 
 def check_compat_guards(model, col, R):
-    check_compat_table(model, col, R)
+    if check_compat_table(model, col, R) == 0:
+        # the whole table was decided from the code: how the guards are spelled (one `!=` of two predicates, an `or` of two
+        # cases, ..) no longer matters
+        col.info("IsCompatible: every abstract operand pair decided; the guard-shape rules are subsumed")
+        return
     """Structural guards of types.IsCompatible, as path conditions: arrays need equal size tuples and compatible
     component types, vectors equal sizes, matrices equal row and column counts, scalars are always compatible,
     primitive/aggregate and array/non-array never."""
